@@ -179,6 +179,10 @@ FILES_ = {
         'd = os.path.split(dirname)[1]': ['G.td = bool(tests_pattern(d)) and bool(contains_init_py(options, files))'],
     },
     'callsites': {
+        # the tree is walked under the very spelling of the search directory that test_dirs yields: find_suites derives the
+        # module name from the prefix table built from those spellings (a file under another spelling matches no prefix
+        # and is silently skipped)
+        'walk_with_symlinks': ["_arg1 == _it1[_i1][0]"],
         # only directories whose names are identifiers and not ignored are entered (in-place pruning honoured by os.walk)
         'os.path.split': [
             "forall(q, Int, implies(0 <= q and q < len(dirs), is_ident(dirs[q]) and not ignored(dirs[q])))",
